@@ -5,6 +5,8 @@
 //        upstream allocator; sequential prefix (cache exactly empty / exactly full / random), then 2-4
 //        threads x 2-5 allocate / deallocate calls (batched and single, num below / equal / above the
 //        cache capacity), quiescent checks, optional final drain, destructor(s)
+//   mode fullrace : cached / heap / counting with the cache EXACTLY FULL and every thread holding pages: the
+//        threads deallocate (batches) concurrently into the full cache -> concurrent compensating evictions
 //   mode strict | auto : ObjectPool in strict mode (blocking pop) / auto-create mode (creator, recycler,
 //        overflow destruction), capacity 1-4
 //   mode seq : one thread, long random history over a random configuration of the above (also built
@@ -328,9 +330,9 @@ struct PageRig {
   }
 };
 
-static void page_program(PageRig& rig, Rng& r, int me, int nops, std::vector<Held>& mine) {
+static void page_program(PageRig& rig, Rng& r, int me, int nops, std::vector<Held>& mine, int dealloc_pct = 45) {
   for (int i = 0; i < nops; ++i) {
-    bool dealloc = !mine.empty() && r.coin(45);
+    bool dealloc = !mine.empty() && (r.coin(dealloc_pct) || (dealloc_pct > 45 && i == 0));
     if (dealloc) {
       size_t k = 1 + r.below(std::min<size_t>(mine.size(), 6));
       std::vector<size_t> idx;
@@ -357,11 +359,16 @@ static void run_pages(uint64_t seed, std::string mode, bool seq) {
   L = &ledger;
   Rng rng(seed);
   std::string m = mode;
+  bool fullrace = mode == "fullrace";   // cache exactly full, every thread starts holding pages and deallocates first
+  if (fullrace) {
+    const char* ms[] = {"cached", "cached", "heap", "counting"};
+    m = ms[rng.below(4)];
+  }
   if (seq) {
     const char* ms[] = {"cached", "heap", "counting", "batch", "batchheap"};
     m = ms[rng.below(5)];
   }
-  size_t want_cap = 1 + rng.below(8);
+  size_t want_cap = fullrace ? 1 + rng.below(4) : 1 + rng.below(8);
   size_t want_batch = 1 + rng.below(6);
   if (rng.coin(25)) want_batch = want_cap + rng.below(3);
   int nthreads = seq ? 0 : 2 + (int)rng.below(3);
@@ -373,6 +380,29 @@ static void run_pages(uint64_t seed, std::string mode, bool seq) {
   printf("RUN %lu mode=%s cap=%zu batch=%zu count=%s pool=0 threads=%d%s\n", (unsigned long)seed, m.c_str(), rig.cap, rig.batchn, rig.count,
          nthreads + 1, L2TAG);
   std::vector<std::vector<Held>> held((size_t)nthreads + 1);
+  if (fullrace) {
+    // obtain cap + k pages, give cap of them back (cache exactly full), hand the other k to the threads
+    size_t k = (size_t)nthreads * (1 + rng.below(4));
+    size_t total = rig.cap + k, done = 0;
+    while (done < total) {
+      size_t n = 1 + rng.below(std::min<size_t>(total - done, 6));
+      rig.do_alloc(0, n, held[0]);
+      done += n;
+    }
+    size_t back = rig.cap;
+    while (back > 0) {
+      size_t n = 1 + rng.below(std::min<size_t>(back, 6));
+      std::vector<size_t> idx;
+      for (size_t i = 0; i < n; ++i) idx.push_back(held[0].size() - 1 - i);
+      rig.do_dealloc(0, held[0], idx);
+      back -= n;
+    }
+    for (size_t i = 0; !held[0].empty(); ++i) {
+      held[1 + i % (size_t)nthreads].push_back(held[0].back());
+      L->holder[held[0].back().id] = 1 + (int)(i % (size_t)nthreads);
+      held[0].pop_back();
+    }
+  } else
   // sequential prefix: leave the cache exactly empty, exactly full, or anywhere
   {
     int style = (int)rng.below(4);
@@ -409,7 +439,7 @@ static void run_pages(uint64_t seed, std::string mode, bool seq) {
         ready.fetch_add(1);
         while (ready.load() < nthreads) sched_yield();
         Rng r(tseed);
-        page_program(rig, r, vrt_tid(), nops, held[(size_t)t]);
+        page_program(rig, r, vrt_tid(), nops, held[(size_t)t], fullrace ? 70 : 45);
       });
     }
     for (auto& t : ts) t.join();
@@ -712,7 +742,7 @@ int main(int argc, char** argv) {
     else if (mode == "batchdefault") run_batchdefault(seed);
     else if (mode == "seq") {
       if (seed % 3 == 0) run_pool(seed, true, true); else run_pages(seed, "", true);
-    } else if (mode == "cached" || mode == "heap" || mode == "counting" || mode == "batch" || mode == "batchheap") run_pages(seed, mode, false);
+    } else if (mode == "cached" || mode == "heap" || mode == "counting" || mode == "batch" || mode == "batchheap" || mode == "fullrace") run_pages(seed, mode, false);
     else return 2;
   }
   return 0;
